@@ -484,7 +484,7 @@ def run(report, prog, tier):
 D = 'nfc.dep'
 L = 'nfc.llcp.llc'
 MUTANTS = [
-    ('idle-delay-from-peer-lto', 'nfc.llcp.llc', "                    send_pdu = self.collect(delay=0.05)", "                    send_pdu = self.collect(delay=recv_timeout / 4)", 'C19-R1'),
+    ('idle-delay-from-peer-lto', 'nfc.llcp.llc', "                    send_pdu = self.collect(delay=0.05)", "                    send_pdu = self.collect(delay=recv_timeout / 4)", 'C19-R1', 'all'),
     ('rcs380-psl-radio-keeps-old-rate', 'nfc.clf.rcs380', """            brty = ('106A', '212F', '424F')[dsi]
             self.chipset.tg_set_rf(brty)
             return brty, psl_req, psl_res""", """            self.chipset.tg_set_rf(brty)
